@@ -2,53 +2,21 @@ package main
 
 import (
 	"fmt"
-	"io"
-	"strings"
-	"time"
 
-	"github.com/versity/versitygw/s3api/utils"
 	"verif/checks"
 	"verif/gw"
 )
 
-type src struct {
-	data []byte
-	off  int
-	plan []int
-}
-
-func (s *src) Read(p []byte) (int, error) {
-	if s.off >= len(s.data) {
-		return 0, io.EOF
-	}
-	n := len(s.data) - s.off
-	if len(s.plan) > 0 {
-		n = s.plan[0]
-		s.plan = s.plan[1:]
-	}
-	if n > len(p) {
-		n = len(p)
-	}
-	copy(p, s.data[s.off:s.off+n])
-	s.off += n
-	return n, nil
-}
-
 func main() {
-	t := time.Date(2026, 9, 28, 12, 0, 0, 0, time.UTC)
-	sec := "c12secretc12secretc12"
-	seed := gw.Signed{Time: t, Region: gw.Region, Signature: strings.Repeat("ab", 32), Key: gw.SigningKey(sec, gw.Region, t), Scope: t.Format("20060102") + "/" + gw.Region + "/s3/aws4_request"}
-	payload := checks.Pattern(3, 5)
-	enc, _ := gw.EncodeSigned(seed, [][]byte{payload}, "crc32")
-	fmt.Printf("len=%d\n%q\n", len(enc), enc)
-	for _, cut := range []int{297, 296, 250, len(enc)} {
-		s := &src{data: enc, plan: []int{cut}}
-		ad := utils.AuthData{Signature: seed.Signature}
-		rd, _ := utils.NewSignedChunkReader(s, ad, gw.Region, sec, t, "x-amz-checksum-crc32", false)
-		buf := make([]byte, 4096)
-		n, err := rd.Read(buf)
-		fmt.Println(cut, n, err)
-		n, err = rd.Read(buf)
-		fmt.Println("  second", n, err)
+	w := checks.NewWorld("dbg", gw.Opts{Versioning: true})
+	defer w.Close()
+	for _, k := range []string{"mpk", "mpk2", "dir/mpk3", "a-up", "zz-up", "mpk2"} {
+		w.F.Do(gw.Root, "POST", gw.ObjPath(w.Bucket, k), "uploads", nil, nil)
+	}
+	for _, km := range []string{"mpk", "a-up", "mpk2", "dir/mpk3"} {
+		for _, mu := range []string{"1", "2"} {
+			r := w.F.Do(gw.Root, "GET", "/"+w.Bucket, gw.Q("uploads", "", "max-uploads", mu, "key-marker", km), nil, nil)
+			fmt.Println(km, mu, r.Status, len(r.Body), string(r.Body)[:min(300, len(r.Body))])
+		}
 	}
 }
